@@ -54,6 +54,9 @@ def run(ctx):
     ]
     ctx.rule("shared/no-inplace-mutation", "no function mutates a class-level / module-level mutable object, a mutable default value or a cached result in place")
     ctx.rule("shared/cached-result-handed-out", "a memoised (lru_cache / cache) function's mutable result is process-lifetime state: no encode / decode / check entry point hands that object to its caller — every caller would receive, and could change, the one object all later calls return")
+    ctx.rule("self/no-memo-in-read-path", "no serialiser / checker / len / repr method both reads and writes one of its own attributes (a memo on the object that survives changes of the fields it was computed from)")
+    ctx.rule("shared/one-shot-iterator", "no class-level / module-level value is a generator expression or another one-shot iterator (map / filter / zip / iter / reversed / enumerate object): the first use would consume it for the rest of the process")
+    ctx.rule("time/no-salted-hash", "no codec function calls the builtin hash(): hashes of str / bytes / enum members are salted per interpreter, so a value derived from them differs between processes")
     ctx.rule("shared/crc-reset-before-use", "the shared CRC calculator singletons: calculate_checksum re-initialises every field that update / digest write, from configuration only, before it feeds data")
     ctx.rule("shared/diagnostic-flag", "a class attribute re-bound at run time is read only as the test of an `if` whose body is diagnostic output")
     ctx.rule("defaults/inventory", "every mutable default argument of the library: the object is never mutated in place, neither directly nor through the field it is stored in")
@@ -80,6 +83,7 @@ def run(ctx):
 
     shared_rules(ctx, repo, eff)
     cached_result_rules(ctx, repo, eff)
+    one_shot_rules(ctx, repo, eff)
     args_rules(ctx, repo, eff)
     self_rules(ctx, repo, eff)
     time_rules(ctx, repo, eff)
@@ -477,6 +481,49 @@ def diagnostic_flag_rule(ctx, repo, eff, origin, ev):
     return not bad and reads > 0, "; ".join(bad[:3]) or f"{reads} reads, each the test of an `if` that only prints"
 
 
+ONE_SHOT_CALLS = {"map", "filter", "zip", "iter", "reversed", "enumerate"}
+
+
+def one_shot_rules(ctx, repo, eff):
+    def one_shot(expr):
+        if isinstance(expr, ast.GeneratorExp):
+            return "generator expression"
+        if isinstance(expr, ast.Call) and isinstance(expr.func, ast.Name) and expr.func.id in ONE_SHOT_CALLS:
+            return f"{expr.func.id}() object"
+        return None
+    n = 0
+    for ci in repo.all_classes():
+        for attr, expr in ci.assigns.items():
+            if attr in ci.methods:
+                continue
+            n += 1
+            k = one_shot(expr)
+            if k or n <= 1:
+                ctx.ob("shared/one-shot-iterator", f"{ci.qualname}.{attr}", not k, f"class-level {k}" if k else "not an iterator", f"{ci.module.relpath}:{expr.lineno}")
+    for m in repo.modules.values():
+        if not m.name.startswith("okdmr.dmrlib"):
+            continue
+        for name, expr in m.assigns.items():
+            n += 1
+            k = one_shot(expr)
+            if k:
+                ctx.ob("shared/one-shot-iterator", f"{m.short}:{name}", False, f"module-level {k}", f"{m.relpath}:{expr.lineno}")
+    ctx.ob("shared/one-shot-iterator", "all class-level and module-level initialisers", True, f"{n} initialisers inspected", "")
+    # salted hashes
+    nh = 0
+    for f in eff.funcs:
+        if not in_scope(f.qualname):
+            continue
+        calls = [x for x in ast.walk(f.node) if isinstance(x, ast.Call) and isinstance(x.func, ast.Name) and x.func.id == "hash"
+                 and not (len(x.args) == 1 and isinstance(x.args[0], ast.Constant) and isinstance(x.args[0].value, (int, bool)))]
+        if f.name == "__hash__":
+            continue   # defining an object's hash for use as a dictionary key is what hash() is for; the value is not a codec result
+        nh += 1
+        if calls:
+            ctx.ob("time/no-salted-hash", f.qualname, False, f"line {calls[0].lineno}: {ast.unparse(calls[0])[:60]}", f"{f.module.relpath}:{calls[0].lineno}")
+    ctx.ob("time/no-salted-hash", "all codec functions", True, f"{nh} functions inspected", "")
+
+
 def cached_result_rules(ctx, repo, eff):
     n = 0
     by_q = {f.qualname: f for f in eff.funcs}
@@ -610,6 +657,26 @@ def self_rules(ctx, repo, eff):
         ctx.ob("self/no-toggle-in-read-path", f.qualname, not evs,
                "; ".join(f"line {e.line}: {e.how}" + (f" through {' <- '.join(x.split(':')[-1] for x in e.via)}" if e.via else "") for e in sorted(evs, key=repr)[:3]), f.loc)
     ctx.extra["read_path_methods"] = n
+    # a read-path method that both reads and writes one of its own attributes keeps a memo on the object: the stored value
+    # outlives the fields it was computed from (len / bytes of a re-used PDU object go stale)
+    for f in eff.funcs:
+        if not in_scope(f.qualname) or f.cls is None or not f.name.startswith(READ_METHODS) or f.kind in ("staticmethod", "classmethod") or not f.node.args.args:
+            continue
+        me = f.node.args.args[0].arg
+        st, ld = {}, set()
+        for x in ast.walk(f.node):
+            if isinstance(x, ast.Attribute) and isinstance(x.value, ast.Name) and x.value.id == me:
+                if isinstance(x.ctx, (ast.Store, ast.Del)):
+                    st.setdefault(x.attr, x.lineno)
+                else:
+                    ld.add(x.attr)
+        both = sorted(a for a in st if a in ld)
+        # the CRC register is a state machine by design (covered by shared/crc-reset-before-use)
+        if f.qualname.startswith("etsi.crc.crc:"):
+            both = []
+        ctx.ob("self/no-memo-in-read-path", f.qualname, not both,
+               "; ".join(f"line {st[a]}: attribute `{a}` is read and written by this read-path method" for a in both[:3]) or "no own attribute is both read and written here",
+               f"{f.module.relpath}:{st[both[0]] if both else f.node.lineno}")
 
 
 # ------------------------------------------------------------------------------------------------- clock
@@ -743,6 +810,20 @@ def positive_controls(ctx):
         ctx.ob("engine/positive-controls", f"probe.py {fn} (pure twin)", not evs, "silent" if not evs else f"false report: {evs[0]}", "")
     good = [e for e in peff.events.values() if e.fi.name == "good" and e.origin[0] == "S"]
     ctx.ob("engine/positive-controls", "probe.py Memo.good (memo whose key determines the value)", bool(good) and all(memo_exempt(e) for e in good), "exempted" if good else "store not seen", "")
+    class _Collect:
+        def __init__(self):
+            self.failed = set()
+            self.extra = {}
+
+        def ob(self, rule, key, ok, detail="", loc="", facts=None):
+            if not ok:
+                self.failed.add((rule, key.split(":")[-1]))
+    col = _Collect()
+    self_rules(col, prepo, peff)
+    one_shot_rules(col, prepo, peff)
+    for rule, key in (("self/no-memo-in-read-path", "LazyLength.__len__"), ("shared/one-shot-iterator", "LazyLength.ONE_SHOT"), ("time/no-salted-hash", "encode_salted")):
+        ctx.ob("engine/positive-controls", f"probe.py {key} ({rule})", (rule, key) in col.failed, "reported" if (rule, key) in col.failed else "the seeded violation was NOT reported", "")
+    ctx.ob("engine/positive-controls", "probe.py LazyLength.as_bytes (reads, never writes: pure twin)", ("self/no-memo-in-read-path", "LazyLength.as_bytes") not in col.failed, "silent", "")
     co = ("S", next((f"cached result of {q}" for q in peff.cached if q.endswith("cached_bits")), "?"))
     for fn, want in (("encode_hands_out_cached", True), ("encode_copies_cached", False)):
         f = next((x for x in peff.funcs if x.name == fn), None)
